@@ -115,7 +115,7 @@ def mc_configs(pid, tier):
             ("mc_crash_listener", sc(Ops=TCP, Targets={1}, Lis=1, MaxOps=5, MaxFaults=1 if q else 2,
                                      MaxSteps=5 if q else 6)),
             # connector crashed (mid-connect, established, with pending reads / writes)
-            ("mc_crash_connector", sc(Ops=TCP, Targets={2}, Lis=1, MaxOps=5, MaxFaults=1, MaxSteps=5)),
+            ("mc_crash_connector", sc(Ops=TCP, Targets={2}, Lis=1, MaxOps=4 if q else 5, MaxFaults=1, MaxSteps=5)),
             # UDP socket + multicast membership + background tasks, both hosts crashable, two cycles
             ("mc_crash_udp", sc(Ops=UDP, Targets={1, 2}, MaxOps=4 if not q else 3, MaxFaults=2, MaxSteps=4 if not q else 3)),
             # latency changed between sends: segments overtake each other, reorder buffer, capacity 2
